@@ -295,7 +295,7 @@ PROPS = {
         lean_modules=["Enc.Props.C09"],
         variants=[{"name": "default", "tags": "verif"}, {"name": "race", "tags": "verif", "race": True, "aux": True}],
         areas=["json.cache", "json.cacheLoad", "json.cacheStore", "json.constructCachedCodec", "json.Append", "json.Parse", "json.encoderBufferPool",
-               "json.mapslicePool", "json.stackPool", "json.constructStructType", "json.constructRecursiveCodec", "json.Encoder", "json.Marshal", "proto.cachedCodecOf", "proto.loadCachedCodec", "proto.storeCachedCodec",
+               "json.mapslicePool", "json.stackPool", "json.Tokenizer", "json.acquireStack", "json.releaseStack", "json.constructStructType", "json.constructRecursiveCodec", "json.Encoder", "json.Marshal", "proto.cachedCodecOf", "proto.loadCachedCodec", "proto.storeCachedCodec",
                "proto.TypeOf", "proto.structCodecOf", "proto.codecOf", "thrift.Encoder", "thrift.Decoder", "thrift.encodeFuncOf", "thrift.decodeFuncOf",
                "json.verifYield", "proto.verifYield", "thrift.verifYield"],
         allowed_native=[],
